@@ -7,6 +7,8 @@ using namespace vf;
 struct Mut {
   int kind = 0;  // 0 truncate to v; 1 index_block_offset=v; 2 magic=v; 3 index length prefix=v; 4 index num_restarts=v;
                  // 5 patch byte at offset v to value b; 6 trailer field #b = v; 7 append v zero bytes before the trailer (shifts nothing, grows file)
+                 // 8 two trailer fields changed TOGETHER so that a consistency check relating them still balances: field A = b%9 is
+                 //   set to v and field G = (b/9)%9 is adjusted so that A+G (mode (b/81)%2 == 0) or G-A (mode 1) keeps its old value mod 2^64
   uint64_t v = 0;
   int b = 0;
 };
@@ -155,6 +157,15 @@ static void apply_mut(bytes &img, const Mut &m) {
       img.insert(t, bytes(n, '\0'));
       break;
     }
+    case 8: {
+      int a = m.b % 9, g = (m.b / 9) % 9, mode = (m.b / 81) % 2;
+      if (m.b < 0 || a == g) break;
+      uint64_t oa = ref::get_le64((const uint8_t *)img.data() + t + 8 * (size_t)a), og = ref::get_le64((const uint8_t *)img.data() + t + 8 * (size_t)g);
+      uint64_t ng = mode == 0 ? oa + og - m.v : og + (m.v - oa);
+      put_le(img, t + 8 * (size_t)a, m.v, 8);
+      put_le(img, t + 8 * (size_t)g, ng, 8);
+      break;
+    }
   }
 }
 
@@ -207,11 +218,12 @@ static Case decode_fuzz(const uint8_t *d, size_t n) {
   c.base = d[0] % NBASE;
   for (size_t p = 2; p + 10 <= n && c.muts.size() < 6; p += 10) {
     Mut m;
-    m.kind = d[p] % 8;
+    m.kind = d[p] % 9;
     m.v = ref::get_le64(d + p + 1);
     m.b = d[p + 9];
     if (m.kind == 5) m.v %= 8192;
     if (m.kind == 6) m.b %= 9;
+    if (m.kind == 8) m.b %= 162;
     c.muts.push_back(m);
   }
   return c;
